@@ -150,6 +150,11 @@ impl LeastSquaresProblem<f64, Dyn, U6> for PointsToMesh<'_> {
         let mut jac = Matrix::<f64, Dyn, U6, Self::JacobianStorage>::zeros(self.points.len());
         for (i, (p, c)) in self.moved.iter().zip(self.closest.iter()).enumerate() {
             let values = match self.mode {
+                // A point lying on the surface has no direction to its closest point, the surface
+                // normal is the limit of that direction from either side
+                DistMode::ToPoint if dist(p, &c.point) < 1e-10 => {
+                    point_plane_jacobian(p, c, &self.params)
+                }
                 DistMode::ToPoint => point_point_jacobian(p, &c.point, &self.params),
                 DistMode::ToPlane => point_plane_jacobian(p, c, &self.params),
             };
